@@ -204,6 +204,68 @@ CLAIMED = {
          "distinct outputs).",
     technique="TLA+ dispatch/configuration tables and Convert state machine checked with TLC; TLC-enumerated histories replayed through the CLI; recorded runs validated by TLC",
     design_ref="6/C19, NOTES_C19.md"),
+  "C04": dict(
+    level="model_checking",
+    text="spec/Imsc.tla is an interpreter for TTML/IMSC written from the standards over an abstract XML tree: time expressions "
+         "in every syntax with frameRate / frameRateMultiplier / tickRate, begin/dur/end, par and seq containers, implicit "
+         "durations, clipping by the parent, region timing, set animation; specified styling = inline over nested over "
+         "referential (right-most wins) over chained (cycle-safe) styles, initial elements, xml:space / xml:lang "
+         "inheritance, anonymous spans, ruby. A design machine (document from a bounded family, time cursor sweeping half "
+         "ticks) is model-checked by TLC (child within parent, seq exclusivity, one interval per element...). Every family "
+         "document and seeded random documents are rendered as real XML (every time syntax x frame rates x tick rates), read "
+         "by imsc.reader.to_model and observed through ISD.from_model at every grid time; spec/Trace_Imsc.tla recomputes "
+         "visibility, region, structure path, space, lang and style tokens. The same documents with ONE attribute corrupted "
+         "(per-attribute catalogue of malformed values) or one unknown attribute must present identically and be logged; "
+         "equivalent lexical forms of a value must read equal, distinct ones different.",
+    note="Trusted: TLC; the XML renderer; the snapshot projection (through ISD.from_model, whose own correctness is C01/C03). "
+         "Outside the generated domain and counted, not judged: set/br children of a seq container, elements whose end resolves "
+         "before their begin, style tokens under a style reference loop. Attribute VALUE syntax is covered by the renderer's "
+         "catalogue of forms, not by all strings (section 7).",
+    technique="TLA+ interpreter for TTML timing/styling model-checked with TLC; enumerated documents rendered to XML and replayed through the reader; recorded snapshots validated by TLC",
+    design_ref="6/C04, NOTES_C04.md"),
+  "C05": dict(
+    level="model_checking",
+    text="spec/ImscWrite.tla: per writer configuration the relation Q(t, t') (t' a whole unit of the chosen syntax, |t' - t| < 1 "
+         "unit, identity on representable times, never swapping two times), documented configuration rejections as an explicit "
+         "RejectConfig outcome, and SameModuloQ(doc, doc') over document parameters, regions, tree, ids, region references, "
+         "space/lang, text, style tokens, animation steps and every time pair. TLC checks the design invariants over all 32 "
+         "configurations and enumerates the 768 replay cases (spec/ImscWriteCases.tla): documents built with the model API "
+         "(every element kind incl. ruby patterns and delimiters, every style property in every value form incl. "
+         "none/normal/transparent, animation steps, regions, initial values, on-grid and off-grid times) are written, "
+         "serialised to bytes, re-read, projected and judged by spec/Trace_ImscWrite.tla together with the snapshots of both "
+         "documents at aligned probe times and the reader's log records.",
+    note="Trusted: TLC; the projection of model documents and value tokens (numbers compared to the written precision). An "
+         "absent end may come back as any end (the reader materialises implicit ends); the snapshot clause judges what that "
+         "shows. Cases on which ISD.from_model itself raises are judged without snapshots (counted).",
+    technique="TLA+ relational spec of time quantisation and structural equality; TLC-enumerated cases replayed through write -> bytes -> read; recorded round trips validated by TLC",
+    design_ref="6/C05, NOTES_C05.md"),
+  "C10": dict(
+    level="model_checking",
+    text="spec/SrtReader.tla: the SubRip file as a line machine (Counter/Timing/Text, blank-line runs, any counter, 2-3 digit "
+         "hours, CRLF/LF), times as exact <<seconds, ms>> pairs, a tag-stack machine for <b>/<i>/<u>/<font color> in angle and "
+         "brace syntax giving a per-character style set; six design invariants checked by TLC on the generating machine. All "
+         "tag sequences up to a bound, line-machine files, frame-boundary files, random files and SRT-writer round trips are "
+         "read by srt.reader.to_model and projected (type and exact value of begin/end, text and breaks, per-character "
+         "styles); spec/Trace_SrtReader.tla replays the machine over each input. Composition clause: the frame printed by "
+         "imsc.writer in frames format for the read document must be the exact frame of the printed time at 8 frame rates.",
+    note="Trusted: TLC; the file renderer from token sequences; the projection. A float begin/end is a violation of 'exact "
+         "rationals' by type. Between frame boundaries floor or ceil is accepted.",
+    technique="TLA+ line and tag-stack state machines model-checked with TLC; enumerated inputs replayed through the reader; recorded reads validated by TLC",
+    design_ref="6/C10, NOTES_C10.md"),
+  "C11": dict(
+    level="model_checking",
+    text="spec/VttReader.tla transcribes the WebVTT Recommendation: file machine (signature, header, NOTE/STYLE/REGION skipped, "
+         "cue id, timing with optional hours, payload), the character-level cue-text tokenizer of section 6.4 incl. character "
+         "references, the tree builder (b, i, u, c.class, lang, v, ruby/rt, timestamp tags -> relative begin) giving per "
+         "character [c, b, i, u, colour, background, lang, ruby role, relative begin]; cue settings -> region as a RELATION "
+         "(inside the root container, non-negative extent, writing mode, text align, display-align table, equal settings share "
+         "a region - no pixel position demanded for line numbers). Three design models (text, file, region) are checked by TLC; "
+         "enumerated cue texts, files, 11 583 (thorough 74 088) cue-setting combinations, random files and VTT-writer round trips "
+         "under all 8 configurations are read and judged by spec/Trace_VttReader.tla.",
+    note="Trusted: TLC; the file renderer; the projection. Known finding: <ruby> nested inside another tag raises (model "
+         "limitation).",
+    technique="TLA+ transcription of the WebVTT file/tokenizer/tree-builder machines and region relation; TLC-checked; enumerated inputs replayed; recorded reads validated by TLC",
+    design_ref="6/C11, NOTES_C11.md"),
 }
 
 NOT_YET = "check not built yet in this round; see DESIGN.md section 6 for the planned TLA+ specification"
